@@ -252,7 +252,12 @@ func judgeMaxMin(c ListCase) *eng.Fail {
 	a := o.val.([]interface{})
 	vals := make([]ref.Dec, len(c.Args))
 	for i, s := range c.Args {
-		vals[i] = parseOperand(s)
+		switch s {
+		case "(0 * 1e100)", "(1e-100 - 1e-100)", "(0 * -1e-90)":
+			vals[i] = ref.FromInt64(0) // zeros computed with a large exponent
+		default:
+			vals[i] = parseOperand(s)
+		}
 	}
 	for k, fn := range []string{"max", "min"} {
 		d, ok := decOf(a[k])
@@ -423,6 +428,23 @@ func runC18(w *eng.W) {
 		c18Fn.Do(w, c)
 	}
 	// max / min
+	// zeros that carry an exponent, and numbers many orders of magnitude apart
+	wide := []string{"0", "0e80", "(0 * 1e100)", "(1e-100 - 1e-100)", "0.000", "5", "(-5)", "1e100", "(-1e100)", "1e-100", "(-1e-100)", "3e-80", "(0 * -1e-90)"}
+	for l := 1; l <= 3; l++ {
+		seqsSharded(w, len(wide), l, func(idx []int) {
+			args := make([]string, len(idx))
+			for i, x := range idx {
+				args[i] = wide[x]
+			}
+			w.State(1)
+			w.Trans(2)
+			w.Trace(1)
+			w.Note("leg:maxmin-wide", 1)
+			c := ListCase{args}
+			w.Sample("maxmin-wide", c)
+			c18List.Do(w, c)
+		})
+	}
 	vals := []string{"1", "1.0", "(-2)", "10e-1", "3.5", "(-2.00)", "0", "1e1"}
 	maxLen := 6
 	pool := vals[:5]
@@ -492,6 +514,10 @@ func runC18(w *eng.W) {
 		{"finite('.')", "0"}, {"finite('1e')", "0"}, {"finite('infinity5')", "0"}, {"finite('1.5e-')", "0"},
 		{"toFloat('.5')", "0.5"}, {"toFloat('5.')", "5"}, {"toFloat('-.5e1')", "-5"}, {"toFloat('1E2')", "100"}, {"toFloat('1e+2')", "100"}, {"toFloat('0e5')", "0"},
 		{"finite(1/0)", "0"}, {"finite(-1/0)", "0"}, {"finite(0/0)", "0"}, {"finite('abc')", "0"}, {"finite(null)", "0"}, {"finite(true)", "0"}, {"finite([1])", "0"}, {"finite('')", "0"},
+		// every way a non-number or a non-finite number can reach finite
+		{"finite(toFloat(''))", "0"}, {"finite(toFloat('-'))", "0"}, {"finite(toFloat('abc'))", "0"}, {"finite(toFloat('infinit'))", "0"}, {"finite(toFloat('sNaN'))", "0"}, {"finite(toFloat('NaN'))", "0"},
+		{"finite(toFloat([1]))", "0"}, {"finite(toFloat(null) / 0)", "0"}, {"finite(toInt('x'))", "0"}, {"finite(0/0 + 1)", "0"}, {"finite(-(0/0))", "0"}, {"finite(sqrt(-1))", "0"}, {"finite(ln(-1))", "0"},
+		{"finite(ln(0))", "0"}, {"finite(1e999999999999999990 * 1e999999999999999990)", "0"}, {"finite(toFloat('Infinity'))", "0"}, {"finite(toFloat('-inf'))", "0"},
 		{"finite(2.5)", "2.5"}, {"finite(1/4)", "0.25"}, {"finite(-7)", "-7"}, {"finite(0)", "0"},
 		{"log(1)", "0"}, {"ln(1)", "0"}, {"exp(0)", "1"}, {"sqrt(0)", "0"}, {"sqrt(16)", "4"}, {"sqrt(0.25)", "0.5"},
 	}
